@@ -406,3 +406,192 @@ W["ripple_saturate"] = dict(
         "implies(len(xs) == saturate_at and " + _X_LOW.format(n="len(xs)") + " + " + _Y_LOW.format(n="len(xs)") + " >= pow2(len(xs) - 1), L(result[0]))",
     ],
 )
+
+# ------------------------------------------------------------------ block.py: Block._check_constraints (C22)
+# The user's predicate is abstract: H(c, i) is "constraint c's predicate holds on trial i's values of c's factors, in c's order".
+# That the real code calls the predicate on exactly those values is the PRECONDITION of the abstract callee (callpre obligations);
+# the postcondition then says the function returns True iff H holds for every ContinuousConstraint of the block at every trial.
+def _cc_domain():
+    import itertools as it
+    from sweetpea._internal.primitive import ContinuousFactor
+    from sweetpea._internal.constraint import ContinuousConstraint, MinimumTrials
+    from sweetpea._internal.distribution import UniformDistribution
+    t, u = ContinuousFactor("t", distribution=UniformDistribution(0, 1)), ContinuousFactor("u", distribution=UniformDistribution(0, 1))
+    preds = [lambda a, b: a < b, lambda a, b: a + b < 3, lambda b: b != 1]
+    for T in range(0, 4):
+        for vals in it.product([0, 1, 2], repeat=2 * T) if T <= 2 else [tuple((i * 7 + k) % 3 for i in range(2 * T)) for k in range(6)]:
+            samples = {"t": list(vals[:T]), "u": list(vals[T:])}
+            for cs in ([], [MinimumTrials(2)], [ContinuousConstraint([t, u], preds[0])], [MinimumTrials(2), ContinuousConstraint([u, t], preds[0]), ContinuousConstraint([t, u], preds[1])],
+                       [ContinuousConstraint([u], preds[2]), ContinuousConstraint([t, u], preds[1])]):
+                yield dict(continuous_samples=samples, CS=cs)
+
+
+W["check_constraints"] = dict(
+    id="check_constraints", target="sweetpea._internal.block:Block._check_constraints", prop=["C22"],
+    params={"continuous_samples": "dict[obj,list[obj]]"},
+    self_fields={"self.constraints": ("CS", "list[obj]")},
+    attrs={"factors": "list[obj]", "constraint_function": "obj", "name": "obj"},
+    consts=["ContinuousConstraint"], local_types={"continue_constraints": "list[obj]"},
+    spec_funcs={"H": (["obj", "int"], "bool")},
+    uses={"_function": dict(params={"xs": "list[obj]"}, ghost_args={"c": "c", "i": "i", "continuous_samples": "continuous_samples"},
+                            requires=["callee == c.constraint_function", "len(xs) == len(c.factors)",
+                                      "forall(j, 0, len(xs), xs[j] == continuous_samples[c.factors[j].name][i])"],
+                            returns="bool", ensures=["result == H(c, i)"])},
+    requires=[  # what Block construction guarantees: a constraint has at least one factor, every factor of a constraint has a sample list, all of one length
+        "forall(m, 0, len(CS), implies(isinstance(CS[m], ContinuousConstraint), len(CS[m].factors) >= 1))",
+        "forall(m, 0, len(CS), implies(isinstance(CS[m], ContinuousConstraint), forall(j, 0, len(CS[m].factors), CS[m].factors[j].name in continuous_samples)))",
+        "forall(m, 0, len(CS), implies(isinstance(CS[m], ContinuousConstraint), forall(j, 0, len(CS[m].factors), "
+        "len(continuous_samples[CS[m].factors[j].name]) == len(continuous_samples[CS[m].factors[0].name]))))"],
+    loops={0: dict(index="m0", invariant=[
+               "forall(j, 0, len(continue_constraints), isinstance(continue_constraints[j], ContinuousConstraint))",
+               "forall(j, 0, len(continue_constraints), exists(m, 0, m0, CS[m] == continue_constraints[j]))",
+               "forall(m, 0, m0, implies(isinstance(CS[m], ContinuousConstraint), exists(j, 0, len(continue_constraints), continue_constraints[j] == CS[m])))"]),
+           1: dict(index="m1", invariant=[
+               "forall(j, 0, m1, forall(t, 0, len(continuous_samples[continue_constraints[j].factors[0].name]), H(continue_constraints[j], t)))"]),
+           2: dict(index="m2", invariant=["forall(t, 0, m2, H(c, t))"])},
+    ensures=["result == forall(m, 0, len(CS), implies(isinstance(CS[m], ContinuousConstraint), "
+             "forall(t, 0, len(continuous_samples[CS[m].factors[0].name]), H(CS[m], t))))"],
+    native=dict(call=lambda f, continuous_samples, CS: f(_types.SimpleNamespace(constraints=CS), continuous_samples),
+                domain=_cc_domain,
+                spec_funcs_from=lambda continuous_samples, CS: {
+                    "H": (lambda c, t: bool(c.constraint_function(*[continuous_samples[f.name][t] for f in c.factors]))),
+                    "ContinuousConstraint": __import__("sweetpea._internal.constraint", fromlist=["x"]).ContinuousConstraint}),
+)
+
+# ------------------------------------------------------------------ primitive.py: ContinuousFactorWindow (C22)
+# derivations.rst / ContinuousFactorWindow: the window of trial idx is {0: value at idx, -1: value at idx-1, ...} per factor, NaN where the
+# window is not yet defined (idx < start, or a position before the first trial) or skipped by the stride.
+_NAN = "float('nan')"
+_CFW_MACROS = {
+    "NANW": (["o"], f"forall(k, 0, WD, (0 - k) in o and o[0 - k] == {_NAN}) and forall(q, implies(q in o, 0 - WD < q and q <= 0))"),
+    "VALW": (["o", "j"], f"forall(k, 0, WD, (0 - k) in o and o[0 - k] == ite(idx - k < 0, {_NAN}, dependent_dict[FS[j].name][idx - k])) "
+                         "and forall(q, implies(q in o, 0 - WD < q and q <= 0))"),
+    "ELEM": (["o", "j"], "ite(idx < ST or (SD > 1 and (idx - ST) % SD != 0), NANW(o), VALW(o, j))"),
+}
+
+
+class _NanEq:          # native twin: float('nan') == float('nan') must hold when the contract text is evaluated by CPython
+    def __eq__(self, other):
+        return other is self or (isinstance(other, float) and other != other)
+    __hash__ = object.__hash__
+
+
+def _cfw_mk(FS_names, ST, SD, WD):
+    from sweetpea._internal.primitive import ContinuousFactorWindow, ContinuousFactor
+    from sweetpea._internal.distribution import UniformDistribution
+    fs = [ContinuousFactor(n, distribution=UniformDistribution(0, 1)) for n in FS_names]
+    return ContinuousFactorWindow(fs, WD, SD, ST), fs
+
+
+def _cfw_domain():
+    for nf in (1, 2):
+        for WD in (1, 2, 3):
+            for SD in (1, 2, 3):
+                for ST in range(0, WD + 2):
+                    for idx in range(0, 7):
+                        names = ["t", "u"][:nf]
+                        yield dict(idx=idx, dependent_dict={n: [f"{n}{i}" for i in range(8)] for n in names}, FS_names=names, ST=ST, SD=SD, WD=WD)
+
+
+def _cfw_env(kw):
+    w, fs = _cfw_mk(kw["FS_names"], kw["ST"], kw["SD"], kw["WD"])
+    return w, fs
+
+
+def _cfw_expected(idx, dependent_dict, FS_names, ST, SD, WD):
+    nan = float("nan")
+    out = []
+    for n in FS_names:
+        if idx < ST or (SD > 1 and (idx - ST) % SD != 0):
+            out.append({-k: nan for k in range(WD)})
+        else:
+            out.append({-k: (nan if idx - k < 0 else dependent_dict[n][idx - k]) for k in range(WD)})
+    return out[0] if len(out) == 1 else out
+
+
+def _same(a, b):
+    if isinstance(a, list) or isinstance(b, list):
+        return isinstance(a, list) and isinstance(b, list) and len(a) == len(b) and all(_same(x, y) for x, y in zip(a, b))
+    if isinstance(a, dict) or isinstance(b, dict):
+        return isinstance(a, dict) and isinstance(b, dict) and set(a) == set(b) and all(_same(a[k], b[k]) for k in a)
+    return a == b or (a != a and b != b)
+
+
+def _cfw_check(res, idx, dependent_dict, FS_names, ST, SD, WD):
+    want = _cfw_expected(idx, dependent_dict, FS_names, ST, SD, WD)
+    return None if _same(res, want) else f"window of trial {idx} is {res!r}, the documented window is {want!r}"
+
+
+W["return_nan"] = dict(
+    id="return_nan", target="sweetpea._internal.primitive:ContinuousFactorWindow._return_nan", prop=["C22"],
+    params={}, self_fields={"self.width": ("WD", "int")},
+    dict_types={"{}": "dict[int,obj]"}, boxed_dicts=True,
+    requires=[],
+    loops={0: dict(index="n0", invariant=[f"forall(k, 0, n0, (0 - k) in factor_idx and factor_idx[0 - k] == {_NAN})",
+                                          "forall(q, implies(q in factor_idx, 0 - n0 < q and q <= 0))"])},
+    ensures=[f"forall(k, 0, WD, (0 - k) in result and result[0 - k] == {_NAN})", "forall(q, implies(q in result, 0 - WD < q and q <= 0))"],
+)
+
+W["get_window_val"] = dict(
+    id="get_window_val", target="sweetpea._internal.primitive:ContinuousFactorWindow.get_window_val", prop=["C22"],
+    params={"idx": "int", "dependent_dict": "dict[obj,list[obj]]"},
+    self_fields={"self.factors": ("FS", "list[obj]"), "self.start": ("ST", "int"), "self.stride": ("SD", "int"), "self.width": ("WD", "int")},
+    attrs={"name": "obj"}, dict_types={"{}": "dict[int,obj]"}, boxed_dicts=True, local_types={"outlist": "list[obj]"},
+    macros=_CFW_MACROS,
+    uses={"self._return_nan": dict(params={}, returns="obj", ghost_args={"WD": "WD"},
+                                   ensures=[f"forall(k, 0, WD, (0 - k) in result and result[0 - k] == {_NAN})", "forall(q, implies(q in result, 0 - WD < q and q <= 0))"])},
+    # call site (_sample_continuous): trial index idx >= 0, the sample lists of the window's factors are complete (length > idx)
+    requires=["idx >= 0", "WD >= 1", "SD >= 1", "ST >= 0", "len(FS) >= 1",
+              "forall(j, 0, len(FS), FS[j].name in dependent_dict and len(dependent_dict[FS[j].name]) > idx)"],
+    loops={0: dict(index="jf", invariant=["len(outlist) == jf", "forall(j, 0, jf, ELEM(outlist[j], j))"]),
+           1: dict(index="k1", invariant=[f"forall(k, 0, k1, (0 - k) in factor_idx and factor_idx[0 - k] == ite(idx - k < 0, {_NAN}, dependent_dict[f.name][idx - k]))",
+                                          "forall(q, implies(q in factor_idx, 0 - k1 < q and q <= 0))"]),
+           2: dict(index="k2", invariant=["forall(k, 0, k2, (0 - k) in factor_idx and factor_idx[0 - k] == dependent_dict[f.name][idx - k])",
+                                          "forall(q, implies(q in factor_idx, 0 - k2 < q and q <= 0))"])},
+    ensures_at={0: ["len(FS) == 1", "ELEM(result, 0)"],
+                1: ["len(FS) >= 2", "len(result) == len(FS)", "forall(j, 0, len(FS), ELEM(result[j], j))"]},
+    native=dict(call=lambda f, idx, dependent_dict, FS_names, ST, SD, WD: f(_cfw_mk(FS_names, ST, SD, WD)[0], idx, dependent_dict),
+                domain=_cfw_domain, check=_cfw_check, skip_requires=True),
+)
+
+# ------------------------------------------------------------------ logic.py: _Cache.get (C11: Tseitin representatives come from the fresh range, one per key)
+def _cache_domain():
+    import itertools as it
+    for keys in it.chain.from_iterable(it.product("abc", repeat=n) for n in range(0, 4)):
+        for s_ in "abcd":
+            yield dict(keys=list(keys), s=s_, start=5)
+
+
+def _cache_call(f, keys, s, start):
+    from sweetpea._internal.logic import _Cache
+    c = _Cache(start)
+    for k in keys:
+        c.get(k)
+    before = (dict(c.cache), c.next_variable)
+    r = f(c, s)
+    return (r, before, dict(c.cache), c.next_variable)
+
+
+def _cache_check(res, keys, s, start):
+    r, (cache0, nv0), cache1, nv1 = res
+    if s in cache0:
+        ok = r == cache0[s] and cache1 == cache0 and nv1 == nv0
+    else:
+        ok = r == nv0 and nv1 == nv0 + 1 and cache1 == {**cache0, s: nv0}
+    inj = len(set(cache1.values())) == len(cache1) and all(start <= v < nv1 for v in cache1.values())
+    return None if ok and inj else f"get({s!r}) on cache {cache0} / next {nv0} returned {r}, cache {cache1}, next {nv1}"
+
+
+_CACHE_INV = "forallo(k1, implies(k1 in CACHE, CACHE[k1] < NV and forallo(k2, implies(k2 in CACHE and CACHE[k1] == CACHE[k2], k1 == k2))))"
+W["cache_get"] = dict(
+    id="cache_get", target="sweetpea._internal.logic:_Cache.get", prop=["C11"],
+    params={"s": "obj"},
+    self_state={"self.cache": ("CACHE", "dict[obj,int]"), "self.next_variable": ("NV", "int")},
+    requires=[_CACHE_INV],       # representation invariant: ids handed out so far are below next_variable and distinct keys have distinct ids
+    ensures=["implies(s in old(CACHE), result == old(CACHE)[s] and NV == old(NV))",
+             "implies(not (s in old(CACHE)), result == old(NV) and NV == old(NV) + 1)",
+             "s in CACHE and CACHE[s] == result",
+             "forallo(k, implies(k != s, iff(k in CACHE, k in old(CACHE)) and implies(k in CACHE, CACHE[k] == old(CACHE)[k])))",     # frame: every other key untouched
+             _CACHE_INV],
+    native=dict(call=_cache_call, domain=_cache_domain, check=_cache_check, skip_requires=True, skip_ensures=True),
+)
